@@ -208,6 +208,25 @@ func judgeBinary(rep parseReport, keyLen, extLen int, total uint64, inputLen int
 	return ""
 }
 
+// contradictoryProblem judges the first Parse call on a header whose total body
+// is shorter than key plus extras.  A store must be rejected having consumed no
+// more than header+extras+key.  For the other opcodes the parser reads what the
+// opcode's fixed layout dictates (a touch always has four bytes of extras, a
+// quiet get drags the next request of its batch along), which is a constant; a
+// body length derived from the contradiction (2^32 minus something) would
+// swallow the whole trailer, and that is what must not happen.
+func contradictoryProblem(setFamily bool, rep parseReport, kl, el int) string {
+	switch {
+	case setFamily && rep.FirstErr == "":
+		return "contradictory frame was accepted"
+	case setFamily && rep.FirstUsed > 24+kl+el:
+		return fmt.Sprintf("contradictory frame: Parse consumed %d bytes, more than header+extras+key = %d", rep.FirstUsed, 24+kl+el)
+	case !setFamily && rep.FirstUsed > 24+kl+el+1024:
+		return fmt.Sprintf("contradictory frame: Parse consumed %d bytes, more than header+extras+key = %d plus a constant (1024): it reads on for a body length the header cannot mean", rep.FirstUsed, 24+kl+el)
+	}
+	return ""
+}
+
 // TestC11Grid: exhaustive header grid, each alone and followed by a 64 KiB
 // trailer of valid requests.
 func TestC11Grid(t *testing.T) {
@@ -247,12 +266,12 @@ func TestC11Grid(t *testing.T) {
 							msg = allocProblem(true, in, rep)
 						}
 						contradictory := total < uint64(kl+el)
-						if msg == "" && contradictory && isSetFamily(op) {
-							// must be rejected without waiting for, or swallowing, the trailer
-							if rep.FirstErr == "" {
-								msg = "contradictory frame was accepted"
-							} else if rep.FirstUsed > 24+kl+el {
-								msg = fmt.Sprintf("contradictory frame: Parse consumed %d bytes, more than header+extras+key = %d", rep.FirstUsed, 24+kl+el)
+						if msg == "" && contradictory {
+							// must be rejected (set family) without waiting for, or swallowing, the
+							// trailer (every opcode: whatever the parser makes of such a header, a
+							// body length derived from the contradiction must not be waited for)
+							if msg = contradictoryProblem(isSetFamily(op), rep, kl, el); msg != "" {
+								msg += fmt.Sprintf(" (the trailer is %d bytes of valid requests)", len(in)-24)
 							}
 						}
 						nt := contradictory || (rep.FirstErr != "" && rep.FirstErr != "EOF")
@@ -755,12 +774,8 @@ func TestC11Replay(t *testing.T) {
 	if msg == "" {
 		msg = allocProblem(c.Binary, in, rep)
 	}
-	if msg == "" && total < uint64(kl+el) && isSetFamily(int(in[1])) {
-		if rep.FirstErr == "" {
-			msg = "contradictory frame was accepted"
-		} else if rep.FirstUsed > 24+kl+el {
-			msg = fmt.Sprintf("contradictory frame: Parse consumed %d bytes, more than header+extras+key = %d", rep.FirstUsed, 24+kl+el)
-		}
+	if msg == "" && total < uint64(kl+el) {
+		msg = contradictoryProblem(isSetFamily(int(in[1])), rep, kl, el)
 	}
 	if msg != "" {
 		t.Fatalf("C11 replay: %s (report %+v)", msg, rep)
